@@ -448,7 +448,11 @@ func ruleJSONLeaves(r *Run) {
 							case "walkArr", "walkObj":
 								got = callee.Name()
 							case "matchLiteral":
-								got = "match:" + leafSource(c.Call.Common().Args[1])
+								arg := c.Call.Common().Args[1]
+								if len(c.Args) > 1 && c.Args[1].V != nil {
+									arg = c.Args[1].V
+								}
+								got = "match:" + leafSource(arg)
 							}
 						}
 						set[got] = true
@@ -581,31 +585,45 @@ func ruleJSONPathWalk(r *Run) {
 			o.Fail("-", "method/closure not found")
 			continue
 		}
-		cl := fn.AnonFuncs[0]
+		// push / walk / pop may sit in the callback itself or in a helper it calls
+		var cl *ssa.Function
 		var walk ssa.CallInstruction
 		var push, pop *ssa.Store
-		for _, c := range callsIn(cl) {
-			if callIs(c, modPath+"/"+jsonexprPkg, "(*extractor).walk") {
-				walk = c
+		for _, gf := range funcGroup(fn) {
+			if gf == fn {
+				continue
 			}
-		}
-		allInstrs(cl, func(in ssa.Instruction) {
-			st, ok := in.(*ssa.Store)
-			if !ok {
-				return
-			}
-			if n, _, ok := fieldNameOf(st.Addr); !ok || n != "current" {
-				return
-			}
-			if c, ok := st.Val.(*ssa.Call); ok {
-				if bi, ok := c.Call.Value.(*ssa.Builtin); ok && bi.Name() == "append" {
-					push = st
+			var w2 ssa.CallInstruction
+			var pu, po *ssa.Store
+			for _, c := range callsIn(gf) {
+				if callIs(c, modPath+"/"+jsonexprPkg, "(*extractor).walk") {
+					w2 = c
 				}
 			}
-			if _, ok := st.Val.(*ssa.Slice); ok {
-				pop = st
+			allInstrs(gf, func(in ssa.Instruction) {
+				st, ok := in.(*ssa.Store)
+				if !ok {
+					return
+				}
+				if n, _, ok := fieldNameOf(st.Addr); !ok || n != "current" {
+					return
+				}
+				if c, ok := st.Val.(*ssa.Call); ok {
+					if bi, ok := c.Call.Value.(*ssa.Builtin); ok && bi.Name() == "append" {
+						pu = st
+					}
+				}
+				if _, ok := st.Val.(*ssa.Slice); ok {
+					po = st
+				}
+			})
+			if w2 != nil && (pu != nil || po != nil) {
+				cl, walk, push, pop = gf, w2, pu, po
 			}
-		})
+		}
+		if cl == nil {
+			cl = fn.AnonFuncs[0]
+		}
 		bad := false
 		if walk == nil || push == nil || pop == nil {
 			bad = true
@@ -638,17 +656,19 @@ func ruleJSONPathWalk(r *Run) {
 		if m == "walkArr" && !bad {
 			// n++ once per element
 			incs := 0
-			allInstrs(cl, func(in ssa.Instruction) {
-				if st, ok := in.(*ssa.Store); ok {
-					if _, ok := st.Addr.(*ssa.FreeVar); ok {
-						if b, ok := st.Val.(*ssa.BinOp); ok && b.Op.String() == "+" {
-							if one, ok := constInt(b.Y); ok && one == 1 {
-								incs++
+			for _, gf := range funcGroup(fn) {
+				allInstrs(gf, func(in ssa.Instruction) {
+					if st, ok := in.(*ssa.Store); ok {
+						if _, ok := st.Addr.(*ssa.FreeVar); ok {
+							if b, ok := st.Val.(*ssa.BinOp); ok && b.Op.String() == "+" {
+								if one, ok := constInt(b.Y); ok && one == 1 {
+									incs++
+								}
 							}
 						}
 					}
-				}
-			})
+				})
+			}
 			if incs != 1 {
 				bad = true
 				o.Fail(r.pos(cl.Pos()), "the element index is incremented %d times per element", incs)
